@@ -16,6 +16,7 @@ import JsonV.Lemmas.EncNoop
 import JsonV.Lemmas.EncRender
 import JsonV.Lemmas.EncIff
 import JsonV.Lemmas.EncValue
+import JsonV.Lemmas.EncRaw
 import JsonV.Spec.Names
 import JsonV.Model.Validate
 import JsonV.Gen.Straight
@@ -177,7 +178,7 @@ example : ∃ m, smRun 10000 Machine.init [.beginArr, .num] = .ok m ∧
 
 section Encoder
 open JsonV.Model.Encoder JsonV.Spec.Render JsonV.Spec.Names JsonV.Lemmas.EncNoop JsonV.Lemmas.EncRender
-open JsonV.Lemmas.EncIff JsonV.Lemmas.EncValue
+open JsonV.Lemmas.EncIff JsonV.Lemmas.EncValue JsonV.Lemmas.EncRaw
 
 /-- A rejected `WriteToken` leaves the whole modelled state — output, machine (offsets, depth, indices),
 namespaces, options — exactly as it was. -/
@@ -290,6 +291,30 @@ example : ∀ e, runToks (Encoder.new {}) [.beginArr, .num [0x31]] = some e →
   intro e h
   have he : e = ((runToks (Encoder.new {}) [.beginArr, .num [0x31]]).getD default) := by rw [h]; rfl
   subst he
+  decide +kernel
+
+/-- **Raw values are rendered like their tokens.**  After every accepted token history `ts`, an accepted
+`WriteValue v` leaves as output exactly `render o (ts ++ valueToks o v)`: the raw text, whatever its
+own whitespace and escapes, is emitted as the PDA-derived rendering of its tokens (`valueToks`: literals,
+unescaped strings, number texts, delimiters) under the options — separators, `SpaceAfterColon/Comma`,
+`Multiline` indentation at the right depth, strings re-quoted by `appendQuote`, a newline after a
+top-level value.  All layouts, all options. -/
+theorem out_render_value (o : Opts) (ts : List Tok) (e e' : Enc) (v : Bytes) (hlen : ts.length + 2 < 2^61)
+    (h : runToks (Encoder.new o) ts = some e) (hw : writeValue e v = (e', none)) :
+    e'.out = render o (ts ++ valueToks o v) := by
+  obtain ⟨hI, hrun⟩ := runToks_inv o ts (encInv_new o) (by omega) h
+  obtain ⟨toks, rest, ht, hout⟩ := writeValue_render hI (by omega) v hw
+  have hvt : valueToks o v = toks := by simp [valueToks, ht]
+  rw [hvt, hout, (out_render o ts e (by omega) h).1, render, render, renderFrom_append o ts toks _ _ hrun]
+
+/-- Non-vacuity: a raw object with inner whitespace and an escaped name, written inside a token-written
+array under Multiline; its tokens and the bytes. -/
+example :
+    let o : Opts := { multiline := true, spaceAfterColon := true, indent := [0x09] }
+    let v := "{ \"\\u0061\" : [1 , true] }".toUTF8.toList
+    valueToks o v = [.beginObj, .str [0x61], .beginArr, .num [0x31], .tru, .endArr, .endObj] ∧
+    ((runToks (Encoder.new o) [.beginArr, .null]).map fun e => (writeValue e v).1.out) =
+      some "[\n\tnull,\n\t{\n\t\t\"a\": [\n\t\t\t1,\n\t\t\ttrue\n\t\t]\n\t}".toUTF8.toList := by
   decide +kernel
 
 /-- FULL STATEMENT, not proved (validated by the `enc valid` cross-check of the harness between the two
